@@ -418,7 +418,13 @@ def gen_ifexpr(rng, depth, cx):
         return ("and", gen_ifexpr(rng, depth - 1, cx), gen_ifexpr(rng, depth - 1, cx))
     if r < 0.75:
         return ("or", gen_ifexpr(rng, depth - 1, cx), gen_ifexpr(rng, depth - 1, cx))
-    return ("cmp", rng.choice(["<", ">", "<=", ">=", "==", "!=", "==", "!="]), gen_sexpr(rng, 1, cx), gen_sexpr(rng, 1, cx))
+    l = gen_sexpr(rng, 1, cx)
+    # sometimes the same operand on both sides, sometimes with white space inside (tab, blanks): equality of
+    # identical literals at different columns of the expression (F37: pyparsing expanded tabs by column)
+    if rng.random() < 0.15 and l[0] == "slit":
+        l = ("slit", l[1] + rng.choice(["\t", "\t\t", " \t", "a\tb", "  "]), l[2])
+    rgt = l if rng.random() < 0.2 else gen_sexpr(rng, 1, cx)
+    return ("cmp", rng.choice(["<", ">", "<=", ">=", "==", "!=", "==", "!="]), l, rgt)
 
 
 def show_sexpr(e):
@@ -569,6 +575,8 @@ def run(ctx):
     # ---- (0) corpus of past failures, (a) rendered ASTs
     todo = [("corpus", c) for c in corpus] + [("ast", None)] * n_ast
     for kind, c in todo:
+        if kind == "corpus" and "ifexpr" in c:
+            continue
         if kind == "corpus":
             cx = c["cx"]; items = c.get("items"); text = c["text"]
             ci = len(cxs); cxs.append(cx); pre += "Definition cx%d := %s.\n" % (ci, coq_ctx(cx))
@@ -675,6 +683,14 @@ Definition spec_ok (o : bool * res str * str * res str) (e : res str * str) : bo
             ctx.tie_broken("spec-correspondence", ast_meta[i])
 
     # ---- (c) if-expressions
+    # corpus of past failures: fixed expressions with their documented truth value
+    for c in corpus:
+        if "ifexpr" in c:
+            r = impl_if(c["cx"], c["ifexpr"])
+            ctx.evaluated(); ctx.count("if-corpus")
+            if r != ("ok", c["expect"]):
+                ctx.violation("if-value-differs-from-documented", "IfExpression(%r) -> %r, documented %r" % (c["ifexpr"], r, c["expect"]),
+                              {"cx": c["cx"], "ifexpr": c["ifexpr"], "expect": c["expect"]})
     cases = []; meta = []
     for i in range(n_if):
         ci = rng.randrange(24); cx = cxs[ci]
